@@ -848,8 +848,7 @@ func execute(r *core.Result, cfg *Config, samples *sampler) {
 // the samples of the evidence file and counts that each scenario is a point
 // of the space.
 type sampler struct {
-	got   map[string]interface{}
-	order []string
+	got map[string]interface{}
 }
 
 func scenarioOf(c *Config) string {
@@ -895,7 +894,6 @@ func (s *sampler) offer(r *core.Result, c *Config, x *run, verdict string) {
 		return
 	}
 	s.got[name] = map[string]interface{}{"point": name, "configuration": c.String(), "observed": x.obs, "verdict": verdict}
-	s.order = append(s.order, name)
 }
 
 func (s *sampler) flush(r *core.Result) {
